@@ -36,7 +36,7 @@ _TOUCHES = ("push", "push_str", "extend_from_slice", "extend", "insert", "insert
             "make_ascii_lowercase", "replace_range", "dedup", "rotate_left", "rotate_right")
 
 
-def _content_source(b, sym, e, depth=0):
+def _content_source(b, sym, e, depth=0, use_pt=None):
     """the expression whose bytes a freshly built Vec/String holds, or None: an empty buffer filled by exactly one
     push_str/extend_from_slice on every path and touched by nothing else, a copy (to_vec, clone, ..) or clone_with_prefix_room"""
     if depth > 6 or not isinstance(e, tuple):
@@ -44,20 +44,88 @@ def _content_source(b, sym, e, depth=0):
     if e[0] == "call":
         nm = e[1].rsplit("::", 1)[-1]
         if nm == "clone_with_prefix_room" and e[2]:
-            return _content_source(b, sym, e[2][0], depth + 1)
+            return _content_source(b, sym, e[2][0], depth + 1, use_pt)
         if nm in _COPIES and len(e[2]) == 1:
-            return _content_source(b, sym, e[2][0], depth + 1)
+            return _content_source(b, sym, e[2][0], depth + 1, use_pt)
         if nm in _BUILD_EMPTY and len(e) > 3:
             me = render(e)
             touching = [(i, t) for i, t in b.calls() if t["args"] and render(sym.op(t["args"][0])) == me and t["callee"]["name"] in _TOUCHES]
             if len(touching) != 1 or touching[0][1]["callee"]["name"] not in _FILLERS or len(touching[0][1]["args"]) != 2:
                 return None
             i, t = touching[0]
-            if in_cycle(b, i) or must_cross(b, [(0, 0)], return_points(b), [term_pt(b, i)], after_start=False) is not None:
+            if use_pt is not None:
+                # judged for one use inside a larger function (a loop body): between the creation of the buffer and that use the
+                # fill is crossed on every path, and it cannot run twice without the buffer being created anew
+                if must_cross(b, [term_pt(b, e[3])], [use_pt], [term_pt(b, i)]) is not None or i in b.reachable(b.succs(i), avoid=[e[3]]):
+                    return None
+            elif in_cycle(b, i) or must_cross(b, [(0, 0)], return_points(b), [term_pt(b, i)], after_start=False) is not None:
                 return None
-            return _content_source(b, sym, sym.op(t["args"][1]), depth + 1)
+            return _content_source(b, sym, sym.op(t["args"][1]), depth + 1, use_pt)
         return None
     return e
+
+
+def _template_rows(facts, R, be, bs, si, st):
+    """broadcast_each(path, template): the body sent is built from the template parameter, one way per variant.  Returns
+    {template variant: (NotifyBody kind, has_format)} when every row is NotifyBody::K whose content is that variant's first field
+    (and whose format, for Raw, is its second), each built under the `template is Variant` edge; None otherwise."""
+    from analysis.sym import split_rows
+    rows = split_rows(bs, si, len(be.blocks[si]["stmts"]), {"use": st["args"][2]})
+    if not rows:
+        return None
+    out = {}
+    for choice, v in rows:
+        if not (v[0] == "agg" and str(v[1]).endswith("NotifyBody") and isinstance(v[2], str)):
+            return None
+        d = dict(v[3])
+        src = _content_source(be, bs, d.get("0"), use_pt=term_pt(be, si))
+        if not (src is not None and src[0] == "field" and src[2] == "0" and src[1][0] == "variant" and src[1][1][0] == "arg" and src[1][1][1] == 3):
+            return None
+        var = src[1][2]
+        fmt = d.get("1")
+        has_fmt = fmt is not None
+        if has_fmt and not (fmt[0] == "field" and fmt[2] == "1" and fmt[1] == src[1]):
+            return None
+        # the row is built where the template is known to be that variant
+        pts = [pt for pt in choice.values()]
+        under = bool(pts) and all(any(f["expr"][0] == "arg" and f["expr"][1] == 3 and str(f["val"]) == var for f in facts_at(be, bs, facts, pt[0])) for pt in pts)
+        if not under or var in out:
+            return None
+        out[var] = (v[2], has_fmt)
+    R.ok("broadcast-loop", be.path, "body stamped from the template parameter, one row per variant", st.get("span"), str(sorted(out.items())))
+    return out
+
+
+def _template_wrapper_rule(facts, R, wpath, kind, template_map):
+    """the wrapper hands broadcast_each the template variant that is stamped into NotifyBody::<kind>, holding the caller's body
+    (JSON/BEVE: its serialisation; Raw: with the caller's format)"""
+    wb = facts.body(wpath)
+    ws = Sym(wb)
+    calls = [(i, t) for i, t in wb.calls() if callee_matches(t["callee"], PR + "::broadcast_each")]
+    ok = False
+    det = "no broadcast_each call"
+    if len(calls) == 1 and len(calls[0][1]["args"]) >= 3:
+        tv = ws.op(calls[0][1]["args"][2])
+        det = render_n(tv)[:140]
+        if tv[0] == "agg" and isinstance(tv[2], str) and tv[2] in template_map and template_map[tv[2]][0] == kind:
+            d = dict(tv[3])
+            w = d.get("0")
+            x = w
+            for _ in range(3):
+                if x is not None and x[0] == "call" and x[1].rsplit("::", 1)[-1] in ("deref", "as_ref", "as_slice", "as_str", "as_bytes", "borrow") and len(x[2]) == 1:
+                    x = x[2][0]
+            if kind in ("Json", "Beve"):
+                want = "serde_json::to_vec" if kind == "Json" else "beve::to_vec"
+                if x is not None and x[0] == "field" and x[2] == "0" and x[1][0] == "variant" and x[1][2] == "Continue" and x[1][1][0] == "call" and x[1][1][2]:
+                    x = x[1][1][2][0]
+                ok = x is not None and x[0] == "call" and (x[1] == want or x[1].endswith("::" + want)) and len(x[2]) == 1 and x[2][0][0] == "arg" and x[2][0][2] == "body"
+            elif kind == "Utf8":
+                ok = x is not None and x[0] == "arg" and x[2] == "text"
+            else:
+                f1 = d.get("1")
+                ok = x is not None and x[0] == "arg" and x[2] == "body" and template_map[tv[2]][1] and f1 is not None and f1[0] == "arg" and f1[2] == "body_format"
+    R.check(ok, "broadcast-loop", wpath, "body content is the caller's %s" % ("text" if kind == "Utf8" else "body"),
+            "the %s broadcast does not hand the caller's body to the %s template: %s" % (kind, kind, det), wb.span, det)
 
 
 def _body_content_rule(facts, R, wpath, c, cv, kind):
@@ -152,29 +220,44 @@ def run(facts, R):
         pa = [render_n(s.op(x)) for x in pt["args"]]
         okp = "or_default(" in pa[0] and "entry(" in pa[0] and ".alias_index, arg2)" in pa[0] and "arg3" in pa[1]
         R.check(okp, "alias-pairing", ab.path, "alias_index[peer_id].push(key)", "push(%s)" % pa, pt.get("span"))
-        # every `true` row after the insert crosses the push, except the same-owner row
+        # every way of succeeding after the insert crosses the push, except the same-owner shortcut.  On the reference shape the
+        # two are separate `true` rows; in general (the result is the presence test itself, or a helper that returns early on the
+        # same-owner edge joins the common `true`) the obligation is stated on paths: from the forward insert every way out
+        # crosses the reverse-index append, except through the same-owner edge
         trues = [(x, y, st) for x, y, st in ab.assigns() if st["place"]["l"] == 0 and not st["place"]["p"] and const_val(s.rvalue(st["rv"])) == 1]
-        n_same = 0
-        for x, y, st in trues:
-            g2 = gt(x)
-            same_owner = any("eq(" in z and "as Some).0, arg2) is True" in z for z in g2) or any("PartialEq" in z and "as Some).0" in z and z.endswith("is True") for z in g2)
-            if same_owner:
-                n_same += 1
-                R.ok("alias-pairing", ab.path, "same-owner row needs no append", st.get("span"), "key already pointed at this peer")
-                continue
-            w = must_cross(ab, [term_pt(ab, ii)], [(x, y)], [term_pt(ab, pi)])
-            R.check(w is None, "alias-pairing", ab.path, "insert -> true crosses the reverse-index append",
-                    "alias() can return true after aliases.insert without recording the key in alias_index (remove would leave the alias behind)", st.get("span"), "push crossed", path=w)
-        # the result may also be the presence test itself (`let present = peers.contains_key(id); if present { link } present`):
-        # then there are no literal rows; the same obligations are stated on paths - from the forward insert every way out crosses
-        # the reverse-index append, except through the same-owner edge
         same_edge = [(x, 0) for x in sorted(ab.live_blocks())
                      if any(("eq(" in z and "as Some).0, arg2) is True" in z) or ("PartialEq" in z and "as Some).0" in z and z.endswith("is True")) for z in gt(x))]
-        if not trues:
+        n_same = 0
+        if trues and not getattr(ab, "changed", False):
+            for x, y, st in trues:
+                g2 = gt(x)
+                same_owner = any("eq(" in z and "as Some).0, arg2) is True" in z for z in g2) or any("PartialEq" in z and "as Some).0" in z and z.endswith("is True") for z in g2)
+                if same_owner:
+                    n_same += 1
+                    R.ok("alias-pairing", ab.path, "same-owner row needs no append", st.get("span"), "key already pointed at this peer")
+                    continue
+                w = must_cross(ab, [term_pt(ab, ii)], [(x, y)], [term_pt(ab, pi)])
+                R.check(w is None, "alias-pairing", ab.path, "insert -> true crosses the reverse-index append",
+                        "alias() can return true after aliases.insert without recording the key in alias_index (remove would leave the alias behind)", st.get("span"), "push crossed", path=w)
+        else:
             w = must_cross(ab, [term_pt(ab, ii)], return_points(ab), [term_pt(ab, pi)] + same_edge)
             R.check(w is None, "alias-pairing", ab.path, "insert -> true crosses the reverse-index append",
                     "alias() can return after aliases.insert without recording the key in alias_index (remove would leave the alias behind)", it.get("span"), "push crossed", path=w)
-            n_same = 1 if same_edge else 0
+            heads = {x for x, _ in same_edge if any(p_ not in {y for y, _ in same_edge} for p_ in ab.preds().get(x, []))}
+            n_same = len(heads)
+        # the reverse index of the *new* owner only ever grows here; the only list alias() may shrink or drop is the previous
+        # owner's (the peer the forward insert displaced), and dropping it needs that list to be empty
+        for ri, rt in ab.calls():
+            if "HashMap" not in rt["callee"]["path"] or rt["callee"]["name"] not in ("remove", "remove_entry", "clear", "drain", "retain", "insert") or not rt["args"]:
+                continue
+            if not render_n(s.op(rt["args"][0])).endswith(".alias_index"):
+                continue
+            kk = render_n(s.op(rt["args"][1])) if len(rt["args"]) > 1 else ""
+            prev_key = "insert(" in kk and ".aliases" in kk and "as Some).0" in kk
+            emptied = any("is_empty(" in z and "alias_index" in z and z.endswith("is True") for z in gt(ri))
+            R.check(rt["callee"]["name"] in ("remove", "remove_entry") and prev_key and emptied, "alias-pairing", ab.path, "alias() drops only the displaced owner's emptied list",
+                    "alias() calls alias_index.%s(%s): a peer's alias list is discarded although its keys still point at it (aliases_for / remove would miss them)"
+                    % (rt["callee"]["name"], kk[:80]), rt.get("span"), "remove(prev) under keys.is_empty()")
         R.check(n_same == 1, "alias-pairing", ab.path, "one same-owner shortcut", "same-owner rows: %d" % n_same, ab.span)
         # displaced owner: retain on alias_index[prev] with a closure comparing to the key
         ri, rt = ret[0]
@@ -223,8 +306,36 @@ def run(facts, R):
     ro = callsite_ordinals(rb)
     rem = [(i, t, render_n(rs.op(t["args"][0]))) for i, t in rb.calls() if t["callee"]["name"] == "remove" and "HashMap" in t["callee"]["path"]]
     by = {m: [(i, t) for i, t, a in rem if a.endswith("." + m)] for m in MAPS}
-    R.check(all(len(by[m]) == 1 for m in MAPS), "alias-pairing", rb.path, "one remove per map", "removes: %s" % {m: len(v) for m, v in by.items()}, rb.span)
-    if all(len(by[m]) == 1 for m in MAPS):
+    entry_rm = []
+    if not by.get("aliases") and getattr(rb, "changed", False):
+        # entry API: `match aliases.entry(key) { Occupied(slot) if *slot.get() == id => { slot.remove(); } .. }`
+        for i, t in rb.calls():
+            if t["callee"]["name"] in ("remove", "remove_entry") and "OccupiedEntry" in t["callee"]["path"]:
+                slot = rs.op(t["args"][0])
+                if slot[0] == "field" and slot[1][0] == "variant" and slot[1][2] == "Occupied" and is_call(slot[1][1], "entry") and render_n(slot[1][1][2][0]).endswith(".aliases"):
+                    entry_rm.append((i, t, slot))
+    if len(entry_rm) == 1 and all(len(by[m]) == 1 for m in MAPS if m != "aliases"):
+        for m in ("peers", "alias_index"):
+            i, t = by[m][0]
+            w = must_cross(rb, [(0, 0)], return_points(rb), [term_pt(rb, i)], after_start=False)
+            R.check(w is None and render_n(rs.op(t["args"][1])) == "arg2", "alias-pairing", rb.path, "%s.remove(id) on every path" % m, "remove can return without %s.remove(id)" % m, t.get("span"), path=w)
+        i, t, slot = entry_rm[0]
+        key = render_n(slot[1][1][2][1], ro)
+        own_list = "remove#2(" in key or (".alias_index, arg2)" in key)
+        owned = False
+        for f in facts_at(rb, rs, facts, i):
+            e = f["expr"]
+            if f["val"] is True and e[0] == "call" and e[1].rsplit("::", 1)[-1] == "eq" and len(e[2]) == 2:
+                a_, b_ = e[2]
+                for x_, y_ in ((a_, b_), (b_, a_)):
+                    if is_call(x_, "get") and "OccupiedEntry" in x_[1] and x_[2] and x_[2][0] == slot and render_n(y_).strip("&*()") == "arg2":
+                        owned = True
+        R.check(own_list and owned and in_cycle(rb, i), "alias-pairing", rb.path, "forward mapping removed only for own keys still pointing here",
+                "aliases.entry(%s) is removed without the test that it still points at this peer" % key[:100], t.get("span"),
+                "key from alias_index.remove(id); Occupied(slot) removed only if *slot.get() == id")
+        by = None
+    R.check(by is None or all(len(by[m]) == 1 for m in MAPS), "alias-pairing", rb.path, "one remove per map", "removes: %s" % {m: len(v) for m, v in (by or {}).items()}, rb.span)
+    if by is not None and all(len(by[m]) == 1 for m in MAPS):
         for m in ("peers", "alias_index"):
             i, t = by[m][0]
             w = must_cross(rb, [(0, 0)], return_points(rb), [term_pt(rb, i)], after_start=False)
@@ -234,6 +345,21 @@ def run(facts, R):
         key = render_n(rs.op(t["args"][1]), ro)
         own_list = "remove#2(" in key or (".alias_index, arg2)" in key)
         owned = any("eq(" in z and "get(" in z and ".aliases" in z and "Option::Some{0: arg2}" in z and z.endswith("is True") for z in g)
+        if not owned:
+            # the same test spelled on the payload: aliases.get(key) is Some(owner) and owner == id
+            fsr = facts_at(rb, rs, facts, i)
+            for f in fsr:
+                e = f["expr"]
+                if f["val"] is True and e[0] == "call" and e[1].rsplit("::", 1)[-1] == "eq" and len(e[2]) == 2:
+                    sides = [render_n(x, ro) for x in e[2]]
+                    pay = [x for x in sides if "get(" in x and ".aliases" in x and x.rstrip(")").endswith("as Some).0")]
+                    ids = [x for x in sides if x.strip("&*()") == "arg2"]
+                    if pay and ids and any(render_n(g_["expr"], ro) in pay[0] and str(g_["val"]) == "Some" for g_ in fsr):
+                        owned = True
+        # ... and the mapping tested is the one removed: the same key
+        same_key = any("get(" in z and ".aliases, " + key + ")" in z for z in g)
+        R.check(same_key, "alias-pairing", rb.path, "the ownership test reads the key being removed",
+                "aliases.remove(%s) is guarded by a test of another key: %s" % (key[:80], [z[-90:] for z in g if "get(" in z]), t.get("span"), "aliases.get(key) ... aliases.remove(key)")
         R.check(own_list and owned and in_cycle(rb, i), "alias-pairing", rb.path, "forward mapping removed only for own keys still pointing here",
                 "aliases.remove(%s) under %s" % (key[:100], [z[-70:] for z in g]), t.get("span"), "key from alias_index.remove(id), guarded by aliases.get(key) == Some(id)")
     rows = value_rows(rb, rs, facts, 0)
@@ -255,6 +381,7 @@ def run(facts, R):
             % (pc[1] if pc else "?", relock), gb.span, "one PeerRegistry::lock per lookup, no nested locking calls")
 
     # ---------------- broadcast-loop -------------------------------------------------------------------------------
+    template_map = None
     bs = Sym(be)
     bo = callsite_ordinals(be)
     snap = [(i, t) for i, t in be.calls() if callee_matches(t["callee"], PR + "::peers")]
@@ -295,6 +422,10 @@ def run(facts, R):
         a = [render_n(bs.op(x)) for x in st["args"]]
         item = "(Iterator>::next(IntoIterator>::into_iter(PeerRegistry::peers(arg1))) as Some).0"
         ok = a[0].endswith(item) and a[1] == "arg2" and "call_mut(arg3" in a[2]
+        if not ok and a[0].endswith(item) and a[1] == "arg2" and getattr(be, "changed", False):
+            # the per-peer body is stamped out of a template value (an enum parameter) instead of a closure: one row per variant
+            template_map = _template_rows(facts, R, be, bs, si, st)
+            ok = bool(template_map)
         R.check(ok, "broadcast-loop", be.path, "send_notify(path, body_for(peer)) to the snapshot item", "send_notify args %s" % [x[-70:] for x in a], st.get("span"), "peer from peers() snapshot; path unchanged")
         ii, it = oi[0]
         ia = [render_n(bs.op(x)) for x in it["args"]]
@@ -330,7 +461,12 @@ def run(facts, R):
                 "clone_with_prefix_room returns %s, whose content is %s" % (render_n(ks.local(0))[:100], render_n(ksrc)[:80] if ksrc is not None else None), kb.span,
                 "empty buffer + one extend_from_slice(src)")
     # body closures build the body of the advertised kind from the given bytes
+    n_body = 0
     for nm, kind, src in (("broadcast_notify_json", "Json", "encoded"), ("broadcast_notify_beve", "Beve", "encoded"), ("broadcast_notify_utf8", "Utf8", "text"), ("broadcast_notify_raw", "Raw", "body")):
+        if template_map:
+            n_body += 1
+            _template_wrapper_rule(facts, R, PR + "::" + nm, kind, template_map)
+            continue
         for c in facts.children(PR + "::" + nm):
             cv = Sym(c).local(0)
             if cv[0] == "agg" and cv[1].endswith("NotifyBody"):
@@ -340,3 +476,5 @@ def run(facts, R):
                     ok = ok and "body_format" in txt
                 R.check(ok, "broadcast-loop", c.path, "body kind %s from the given bytes" % kind, "closure builds %s" % txt[:120], c.span, txt[:80])
                 _body_content_rule(facts, R, PR + "::" + nm, c, cv, kind)
+                n_body += 1
+    R.floor("broadcast-loop", n_body, 4, "broadcast wrappers whose body content was judged")
